@@ -166,7 +166,7 @@ Section Server.
   Definition handle_patch (st : S) (repo : bytes) (id : I) (cr : bytes) (cl : Z) (body : bytes) : S * response I :=
     match chunk_range_of cr cl with
     | Ok (a, b) =>
-        match ub_resume B st repo id a (b - a) with
+        match ub_resume B st repo id a (wrap64 (b - a)) with      (* int(end-start) *)
         | (st1, Ok w) =>
             match copy_body st1 w body with
             | (st2, w2, Some e) =>
@@ -190,7 +190,7 @@ Section Server.
   Definition handle_put (st : S) (repo : bytes) (id : I) (dig cr : bytes) (cl : Z) (body : bytes) : S * response I :=
     match chunk_range_of cr cl with
     | Ok (a, b) =>
-        match ub_resume B st repo id a (b - a) with
+        match ub_resume B st repo id a (wrap64 (b - a)) with      (* int(end-start) *)
         | (st1, Ok w) =>
             match copy_body st1 w body with
             | (st2, w2, Some e) =>
